@@ -69,7 +69,7 @@ Definition gen_field_encode (s : schema) (slot : nat) (f : fdesc) : gres eop :=
       GOk (wrap (match i_pointer i, i_repeated i with
                  | true, false => EMsgPtr slot (fnum f) idx
                  | true, true => EMsgRepPtr slot (fnum f) idx
-                 | false, false => EMsgPresent slot (fnum f) idx
+                 | false, false => if always then EMsgAlwaysVal slot (fnum f) idx else EMsgPresent slot (fnum f) idx
                  | false, true => EMsgRepVal slot (fnum f) idx
                  end))
   | GEnum =>
@@ -171,6 +171,7 @@ Fixpoint zero_slot (fuel : nat) (s : schema) (f : fdesc) : val :=
   | GMessage idx =>
       if i_repeated i then VList [] else
       if i_pointer i then VMsg None else
+      if i_oneof i then VOpt None else                 (* by-value member of a oneof: absent wrapper *)
       match fuel with
       | O => VEmb [] []
       | S g => match nth_error s idx with
